@@ -6,7 +6,11 @@ Correspondence (model: lean/Yaql/Model/Convert.lean, driver Drv/C10.lean):
     elements and as dict keys) handed to `$` with yaql.convertInputData off, under the 4
     combinations of convertTuplesToLists x convertSetsToLists and several yaql.limitIterators;
  B. random host documents (JSON-like, and tuples / sets / generators / frozensets / views of such)
-    through `$` with input conversion on (the round trip);
+    through `$` with input conversion on (the round trip) - entering by `evaluate(data=doc)`, by
+    `yaql.create_context(data=doc)` + `evaluate(context=..)`, by `YaqlInterface(ctx, engine)('$1', doc)`;
+    half of the iterators, and 300 documents of their own (`gen_lazy_doc`), are LAZILY BUILT: generators that
+    build a sub-document per item, zip / enumerate / map(list, ..) / dict.items() of a temporary - one-shot
+    iterables, at the root and nested, whose items die as soon as the converter drops them;
  C. a pool of yaql expressions producing every kind of value the library returns, nested in each
     other; the unfinalised value is snapshotted with yaql.convertOutputData off and the model is
     asked what the finaliser makes of it.
@@ -1372,7 +1376,11 @@ LEVEL_TEXT = ('Lean 4 theorems over a code-shaped model of utils.convert_input_d
               'roundtrip_history (= canon o of that document), memo_breaks_roundtrip (a statement remembering its last input '
               'does not satisfy it); the harness runs generated host histories on the real code (same Statement object, fresh '
               'parses, engine.copy / per-call options / YaqlInterface paths) against that model.')
-LEVEL_NOTE = ('trusted: Lean kernel; hand-written model Yaql/Model/Convert.lean; Python hashing as the predicate '
+LEVEL_NOTE = ('(round 5: host documents that are, or contain, LAZILY BUILT iterables - generators / zip / enumerate / map / '
+              'dict.items() whose items exist only while the converter looks at them - go through `$` by evaluate(data), '
+              'create_context(data) and YaqlInterface; convIn_identity_free: the converted content does not depend on the '
+              'addresses of the host\'s objects; memo_sound / memo_breaks_transient_items: an id()-keyed memo is right exactly for '
+              'documents whose objects are all alive at once.)  trusted: Lean kernel; hand-written model Yaql/Model/Convert.lean; Python hashing as the predicate '
               '`hashable`; set/dict de-duplication not modelled (injective on success paths); the differential harness '
               'and its plain-Python transcription of the renaming. Known finding K1 (unhashable-in-hash-position) is '
               'reported as KNOWN-FINDING; every other finalisation failure or leftover lazy/frozen container is a violation.')
